@@ -63,6 +63,18 @@ CHECKS = {
         "strings up to length 3/4 each run), the alphabet abstraction, UTF-8 encode/decode as identity at text level, the value-path "
         "composition lemma (C05/C06). Known findings C07-F1..F6 are genuine defects recorded in known_findings.json.",
    technique="contract-based deductive verification: strongest postconditions as rational transducers extracted from the source, equivalence/inclusion decided by fstc; bounded stand-in"),
+ "C06": dict(
+   category="proof", design_ref="DESIGN.md section 4 and section 8 C06", engine="fstc",
+   text="foldline is turned into a finite transducer over character-width classes by executing its real loop body (compiled from the "
+        "AST) on every reachable loop state and character class and by reading the fast path's slice expression; decided for ALL "
+        "LF-free lines of every length and every alignment: each physical line has at most 75 octets, each continuation line starts "
+        "with the added space, uFOLD.sub('', foldline(x)) == x, and Contentlines.from_ical(to_ical(lines)) == lines + [''] (regex "
+        "transducers compiled from the patterns in the source). Counterexamples are shortest inputs replayed on the real functions. "
+        "Alignment enumeration on the real functions is a labelled bounded stand-in.",
+   note="Trusted: fstc; character abstraction (body depends on a character only through its UTF-8 length, checked by AST scan); the "
+        "transducer is compared with the real foldline on all strings <= 4 and seeded long strings each run; regex transducer vs re.sub "
+        "exhaustively to length 6/7. limit/fold_sep are the defaults read from the signature (75, CRLF+space).",
+   technique="contract-based deductive verification: semantic loop quotient of the real loop + regular inclusion/equivalence decided by fstc; bounded stand-in"),
 }
 NA_REASON = "check not built yet (build round in progress; DESIGN.md section 8 describes the planned contracts)"
 
@@ -74,7 +86,7 @@ def main():
                    "source_commits": [], "add_only": True},
          "engines": [
              {"name": "pyvc", "path": "vc/pyvc", "serves_properties": sorted(CHECKS), "kind_free_text": "symbolic executor over the real functions' AST producing verification conditions, discharged by z3 5.1.0 (cvc5 for z3 unknowns)"},
-             {"name": "fstc", "path": "vc/fstc", "serves_properties": ["C07"], "kind_free_text": "decision procedure for rational string functions (functional transducers): equivalence, image inclusion, shortest counterexamples"},
+             {"name": "fstc", "path": "vc/fstc", "serves_properties": ["C06", "C07"], "kind_free_text": "decision procedure for rational string functions (functional transducers): equivalence, image inclusion, shortest counterexamples"},
              {"name": "fin", "path": "vc/fin", "serves_properties": sorted(CHECKS), "kind_free_text": "exhaustive evaluation over finite domains; cross-checks of assumed contracts against CPython"},
          ],
          "checks": [], "notes": "see DESIGN.md; known findings in known_findings.json", "not_applicable": []}
